@@ -90,4 +90,19 @@ PROPS = {
         "trusted": ["chrono strftime", "serde_json string escaping", "nu_ansi_term Style::paint"],
         "shards": 4,
     },
+    "C13": {
+        "level_text": "Kernel-checked theorems on the routing model: for a brace list of distinct names every registered writer named receives the record "
+                      "exactly once and no other writer anything, independent of the specification (named_writer_exactly_once, unnamed_writer_nothing, "
+                      "deliveries_independent_of_spec); the default channel iff _Default is listed and the spec enables the MODULE (brace_default_iff); unknown "
+                      "names are reported and do not disturb the others; provided writers emit iff level <= ceiling (ceiling_rule); the complete 7x5 duplication "
+                      "table (dup_rule, decide). Validation against the real logger with recording writers, a FileLogWriter with max_level, a SyslogWriter over "
+                      "loopback UDP, and a child process whose stderr/stdout are captured for all Duplicate values incl. adapt_duplication_to_*.",
+        "level_note": "A name repeated inside one brace list is delivered once per occurrence (documented reading: the statement quantifies over lists of distinct "
+                      "names). One genuine defect repaired (fix 5bf7827: SyslogWriter ignored max_log_level). Custom LogWriters decide themselves what they emit.",
+        "correspondence": "Spec.route/emitted/dupDecision vs FlexiLogger::log with additional writers (recording, FileLogWriter, SyslogWriter/UDP) and MultiWriter duplication (child process)",
+        "rule": "seeded brace lists over registered/unknown/_Default/empty names (mostly distinct) x 5 levels x specs x writer kinds and ceilings; duplication cases: "
+                "all 7 Duplicate values for stderr and stdout with run-time adaptation; non-trivial = a delivery or duplication decision was checked by the oracle",
+        "trusted": SPEC_TRUST + ["loopback UDP delivers a datagram before the next recv"],
+        "shards": 8,
+    },
 }
